@@ -173,13 +173,15 @@ func (fx *FnCtx) lookupSpecFunc(env *Env, name string) *SpecFunc {
 			return sf
 		}
 	}
+	// a name not defined in the package itself: the definition of another package; when several
+	// packages define it, the one with the smallest package path (a fixed choice, not map order)
 	var found *SpecFunc
+	foundKey := ""
 	for k, sf := range fx.V.cs.Specs {
 		if strings.HasSuffix(k, "."+name) {
-			if found != nil && found != sf {
-				return found
+			if found == nil || k < foundKey {
+				found, foundKey = sf, k
 			}
-			found = sf
 		}
 	}
 	return found
